@@ -54,6 +54,7 @@ pub fn fan_out(n: usize, args: &[String]) -> Vec<WorkerOutput> {
                     let noise = line.starts_with("Task failed, serializing schedule")
                         || line.starts_with("test panicked in task")
                         || line.starts_with("failing schedule")
+                        || line.starts_with("Test deadlocked, and ")
                         || line.starts_with("pass that string to");
                     if verbose || !noise {
                         eprintln!("{line}");
